@@ -134,10 +134,13 @@ class Choices:
 class Clock:
     """Virtual clock in integer nanoseconds.  Ticks 1 ns per read so that two reads never tie."""
 
-    __slots__ = ("ns", "_ledger_t", "_ledger_c", "stall_total_ns")
+    __slots__ = ("ns", "_ledger_t", "_ledger_c", "stall_total_ns", "wall_offset_ns")
 
     def __init__(self) -> None:
         self.ns = 0
+        # the wall clock (time.time / datetime.now) = monotonic clock + an offset that fault injection may jump either way (NTP step,
+        # DST, a user setting the clock); the monotonic clock never jumps
+        self.wall_offset_ns = 0
         # stall ledger: cumulative injected delay, as parallel arrays (time_ns, cumulative_ns)
         self._ledger_t: List[int] = [0]
         self._ledger_c: List[int] = [0]
